@@ -43,10 +43,8 @@ def run_property(prop, tier, replay=None):
     fam_seeds = {f: rng.randrange(1 << 30) for f in fam_names}
     fam_results = []
     if fam_names:
-        import multiprocessing
-        ctx = multiprocessing.get_context("fork")
         limit = FAMILY_TIMEOUT[tier]
-        with ctx.Pool(min(len(fam_names), 6)) as pool:
+        with NestablePool(min(len(fam_names), 6)) as pool:
             pending = [(f, pool.apply_async(_run_one_family, (f, inputs, fam_seeds[f], limit))) for f in fam_names]
             t_fam = time.time()
             for f, job in pending:
@@ -182,6 +180,31 @@ def run_property(prop, tier, replay=None):
 
 
 FAMILY_TIMEOUT = {"quick": 1200, "thorough": 5400}
+
+
+import multiprocessing  # noqa: E402
+import multiprocessing.pool  # noqa: E402
+
+
+class _NoDaemonProcess(multiprocessing.get_context("fork").Process):
+    """family workers may start killable helper processes of their own (vlib/semprops.run_parallel)"""
+    @property
+    def daemon(self):
+        return False
+
+    @daemon.setter
+    def daemon(self, value):
+        pass
+
+
+class _NoDaemonContext(type(multiprocessing.get_context("fork"))):
+    Process = _NoDaemonProcess
+
+
+class NestablePool(multiprocessing.pool.Pool):
+    def __init__(self, *args, **kwargs):
+        kwargs["context"] = _NoDaemonContext()
+        super().__init__(*args, **kwargs)
 
 
 class FamilyDeadline(BaseException):
